@@ -104,7 +104,7 @@ def reader_case(rng, cid, n):
 
 def exhaustive_cases(max_n, seq_len):
     """all buffer sizes <= max_n x all request/append length sequences up to seq_len over 0..N+1
-    x a fixed family of chunkings (1-byte, full, N-1, mixed)"""
+    x a fixed family of chunkings (1-byte, full, N-1, mixed, mixed with 0-byte deliveries)"""
     cases = []
     k = 0
     for n in range(1, max_n + 1):
@@ -123,10 +123,37 @@ def exhaustive_cases(max_n, seq_len):
                 cases.append(Case("xw%d" % k, lines))
                 total = sum(seq) + 1
                 src = hexb([i % 251 + 1 for i in range(total)])
-                for ci, chunks in enumerate(([1] * (total + 1), [], [max(1, n - 1)] * (total + 1), [1, n, 2, 1, n])):
+                for ci, chunks in enumerate(([1] * (total + 1), [], [max(1, n - 1)] * (total + 1), [1, n, 2, 1, n],
+                                             [0, 1, 0, 0, n, 0, 2])):
                     lines = ["rb new %d %s %s" % (n, src, ",".join(map(str, chunks)) or "-")]
                     lines += ["rb get %d" % ln for ln in seq]
                     cases.append(Case("xr%d.%d" % (k, ci), lines))
+    return cases
+
+
+def directed_cases():
+    """deterministic, independent of the seed: for every buffer size, (a) an oversized append (N, N+1, 2N+1
+    bytes) onto a buffer holding 1, N//2 or N-1 bytes, followed by a small append and a flush -- the buffered
+    bytes must reach the sink before the oversized block (C19_write_passthrough_reachable); (b) 0-byte appends
+    and gets at the start, between other requests, on a partly consumed buffer and after the end of the data,
+    with 0-byte deliveries of the source in between (C19_read_stream_model)."""
+    cases = []
+    for n in SIZES:
+        for pre in sorted({1, max(1, n // 2), n - 1} - {0}):
+            if pre >= n:
+                continue        # N = 1: every non-empty append is oversized, the buffer never holds a byte
+            for big in (n, n + 1, 2 * n + 1):
+                lines = ["wb new %d" % n, "wb append -", "wb append " + hexb(range(1, pre + 1)),
+                         "wb append " + hexb([(100 + i) % 251 + 1 for i in range(big)]), "wb append -",
+                         "wb append " + hexb([200]), "wb flush", "wb flush"]
+                cases.append(Case("dw%d.%d.%d" % (n, pre, big), lines))
+        total = 2 * n + 1
+        src = hexb([i % 251 + 1 for i in range(total)])
+        for ci, chunks in enumerate(([0, 1, 0, 0, n, 0], [0] * 3 + [1] * total, [])):
+            lines = ["rb new %d %s %s" % (n, src, ",".join(map(str, chunks)) or "-"), "rb get 0", "rb get 1",
+                     "rb get 0", "rb get %d" % (n + 1), "rb get 0", "rb get %d" % n, "rb get 0", "rb get %d" % n,
+                     "rb get 0", "rb get 1", "rb get 0"]
+            cases.append(Case("dr%d.%d" % (n, ci), lines))
     return cases
 
 
@@ -138,6 +165,7 @@ def generate(prop, tier, seed, scale=1):
         n = rng.choice(SIZES)
         cases.append((writer_case if i % 2 else reader_case)(rng, "g%d" % i, n))
     yield "generated", cases
+    yield "directed pass-through with non-empty buffer / 0-byte requests", directed_cases()
     if tier == "quick":
         yield "exhaustive N<=3 len<=3", exhaustive_cases(3, 3)
     else:
